@@ -174,6 +174,10 @@ def step (_ : Unit) (toks : List Val) (impl : String) : Unit × Out :=
     -- RecvTimeout on an empty channel closed at about the moment its timer fires: "a closed channel counts as false" and the timeout gives
     -- false too, nothing was sent, so every round returns (0, false) whichever event wins (both branches of the model's select agree)
     ((), { model := "0 -", spec := some "0 -", tags := ["recvclose"] })
+  | [.w "sendrace", .i _mode, .i _tmo, .i _rounds, .i _procs] =>
+    -- SendTimeout whose hand-over and timer race: C19.send_iff — the result is true exactly when the value was handed over, for every
+    -- resolution of the race, so no round may report a difference
+    ((), { model := "0 -", spec := some "0 -", tags := ["sendrace"] })
   | [.w "recvqueuedconc", .i cap, .i fill, .i closed, .i g, .i limit] =>
     -- g concurrent RecvQueued calls on one channel holding 1..fill, no sender.  A channel hands its values out in FIFO order, each to
     -- exactly one receiver, and a receiver stops early only when it finds the channel empty (or closed and drained).  So the outcomes are
